@@ -174,6 +174,8 @@ Inductive out :=
 
 Definition f_init : fstate := mkF false PNone false (-1) (-1) 0 [].
 
+Definition info_cmd (v2 : bool) : Z := if v2 then 3 else 1.
+Definition item_cmd (v2 : bool) : Z := if v2 then 2 else 0.
 Definition info_req (v2 : bool) : list Z := if v2 then [3] else [1].
 Definition item_req (v2 : bool) (i : Z) : list Z :=
   if v2 then [2; Z.land i 255; Z.land (Z.shiftr i 8) 255] else [0; i].
@@ -203,10 +205,15 @@ Definition on_packet (c : cls) (cache : Z -> option toc) (s : fstate) (chan : Z)
   : fstate * list out :=
   if negb (f_reg s) then (s, []) else
   if negb (chan =? 0) then (s, []) else
-  let payload := tl data in
+  match data with
+  | [] => (s, [])                       (* len(packet.data) < 1 *)
+  | cmd :: payload =>
   match f_phase s with
   | PNone => (s, [])
   | PInfo =>
+      (* only a reply to the INFO request (fix F03a): a reply left over from an earlier session or a late
+         element reply is not read as the INFO reply *)
+      if negb (cmd =? info_cmd (f_v2 s)) then (s, []) else
       let hl := if f_v2 s then 6%nat else 5%nat in
       let il := if f_v2 s then 2%nat else 1%nat in
       if (length payload <? hl)%nat then (s, [Raised StructError]) else
@@ -219,6 +226,8 @@ Definition on_packet (c : cls) (cache : Z -> option toc) (s : fstate) (chan : Z)
           else (mkF false PElem (f_v2 s) 0 n crc (f_toc s), [Insert crc (f_toc s); Finished])
       end
   | PElem =>
+      (* only a reply to an ITEM request (fix F03a): an INFO reply is not read as an element *)
+      if negb (cmd =? item_cmd (f_v2 s)) then (s, []) else
       let il := if f_v2 s then 2%nat else 1%nat in
       if (length payload <? il)%nat then (s, [Raised (if f_v2 s then StructError else IndexError)]) else
       let ident := le_val (firstn il payload) in
@@ -233,6 +242,7 @@ Definition on_packet (c : cls) (cache : Z -> option toc) (s : fstate) (chan : Z)
           else (mkF false PElem (f_v2 s) (f_req s) (f_n s) (f_crc s) t',
                 [Insert (f_crc s) t'; Finished])
       end
+  end
   end.
 
 (* ------------------------------------------------------------------ the device and the adversary *)
